@@ -41,6 +41,9 @@ def run(ctx, rep):
         check_depth_ast(crate, rep, cfg)
         check_lexprog(crate, rep, cfg)
         check_parseprog(crate, rep, cfg)
+        check_errkind(crate, rep, cfg)
+        check_delim(crate, rep, cfg)
+        check_patch_jt(crate, rep, cfg)
         import rpanic
         rpanic.check(crate, rep, "R-PANIC.parse", ("parsing/lexer.rs", "parsing/parser.rs", "parsing/compiler.rs", "parsing/instructions.rs", "template.rs", "tera.rs", "delimiters.rs"), cfg, 40)
     pos = ctx.posctl()
@@ -334,3 +337,254 @@ def check_parseprog(crate, rep, cfg):
             else:
                 rep.ok("C06.PARSEPROG", key, b.where(head), what + " [%s: %s]" % (kind, detail))
     rep.floor("C06.PARSEPROG", "loops in parsing::parser [%s]" % cfg, n_loops, 12)
+
+
+# ----------------------------------------------------------------------------------------------------------------
+# C06.ERRKIND / C06.DELIM / C06.PATCH / C06.JT
+
+from engine import field_accesses, TRANSPARENT_CALLS
+
+ERR_CTORS_OK = {"syntax_error", "new"}
+JUMPS = ("Jump", "PopJumpIfFalse", "JumpIfFalseOrPop", "JumpIfTrueOrPop", "Iterate")
+
+
+def check_errkind(crate, rep, cfg):
+    n_ctor = 0
+    n_foreign = 0
+    for b in crate.in_files("parsing/lexer.rs", "parsing/parser.rs"):
+        if b.kind == "const":
+            continue
+        tr = Tracer(b)
+        root = crate.root_of(b).path
+        k = 0
+        for bb, t in b.calls():
+            cd = callee_def(t)
+            if cd.startswith("errors::Error::") and "Error" in b.local_ty(t["dest"]["l"]):
+                n_ctor += 1
+                meth = cd.rsplit("::", 1)[-1]
+                ok = meth in ERR_CTORS_OK
+                if meth == "new":
+                    leaves = tr.operand(t["args"][0])
+                    ok = bool(leaves) and all(l.kind == "agg" and l.detail[2] == "SyntaxError" for l in leaves)
+                key = "C06.ERRKIND:%s:Error::%s#%d" % (root, meth, k)
+                k += 1
+                if not ok:
+                    rep.bad("C06.ERRKIND", key, b.where(bb), "lexer/parser construct only syntax errors — VIOLATED: Error::%s; Template::new's "
+                            "`unreachable!(\"Parser got something other than a SyntaxError\")` would fire" % meth)
+                continue
+            # calls to fallible functions defined outside lexer/parser
+            tgt = crate.bodies.get(t["f"].get("res") or cd)
+            dty = b.local_ty(t["dest"]["l"])
+            if tgt is not None and not tgt.file.endswith(("parsing/lexer.rs", "parsing/parser.rs")) and dty.startswith("std::result::Result<") and "errors::Error" in dty:
+                n_foreign += 1
+                dest = t["dest"]["l"]
+                mapped = False
+                for b2, t2 in find_calls(b, ["std::result::Result::<T, E>::map_err"]):
+                    a0 = t2["args"][0]
+                    if a0["k"] in ("copy", "move") and a0["pl"]["l"] == dest:
+                        mapped = True
+                key = "C06.ERRKIND:%s:foreign:%s" % (root, cd)
+                what = "the Err of %s (defined outside the lexer/parser) is rewritten with map_err into a syntax error before any `?`" % cd
+                (rep.ok if mapped else rep.bad)("C06.ERRKIND", key, b.where(bb), what if mapped else what + " — VIOLATED: a non-syntax error would reach "
+                                                "Template::new's unreachable!")
+        for bb, idx, s in find_aggs(b, "errors::ErrorKind"):
+            if s["rv"]["variant"] != "SyntaxError":
+                rep.bad("C06.ERRKIND", "C06.ERRKIND:%s:ErrorKind::%s" % (root, s["rv"]["variant"]), b.where(bb, idx), "lexer/parser build ErrorKind::%s" % s["rv"]["variant"])
+        for bb, idx, s in find_aggs(b, "errors::Error", "Error"):
+            rv = s["rv"]
+            op = rv["ops"][rv["fields"].index("kind")]
+            leaves = tr.operand(op)
+            ok = bool(leaves) and all(".kind" in l.projs and any(p.startswith("via:std::clone::Clone") for p in l.projs) for l in leaves)
+            key = "C06.ERRKIND:%s:Error-literal#%d" % (root, k)
+            k += 1
+            n_ctor += 1
+            (rep.ok if ok else rep.bad)("C06.ERRKIND", key, b.where(bb, idx), "an Error struct literal in the parser re-wraps the clone of a lexer error's kind" +
+                                        ("" if ok else " — VIOLATED: kind origin %s" % sorted(leaf_str(l) for l in leaves)[:2]))
+    rep.ok("C06.ERRKIND", "C06.ERRKIND:constructors", "tera/src/parsing", "all %d error constructions in the lexer/parser are Error::syntax_error / Error::new(SyntaxError) / re-wrapped "
+           "lexer kinds (violations listed separately)" % n_ctor)
+    rep.floor("C06.ERRKIND", "error constructions in lexer/parser [%s]" % cfg, n_ctor, 60)
+    rep.floor("C06.ERRKIND", "calls to foreign fallible functions [%s]" % cfg, n_foreign, 1)
+    # the unreachable! it discharges exists in Template::new's non-SyntaxError arm (informational anchor)
+
+
+def check_delim(crate, rep, cfg):
+    n = 0
+    for a in field_accesses(crate, "tera::Tera", "delimiters"):
+        if a["kind"] not in ("assign", "agg-init"):
+            continue
+        b = a["body"]
+        root = crate.root_of(b).path
+        if rrec.derive_generated(crate, root):
+            continue
+        n += 1
+        key = "C06.DELIM:writer:%s" % root
+        if root.endswith("::default"):
+            tr = Tracer(b)
+            ok = all(leaf_call_is(l, "std::default::Default::default") for l in tr.operand(a["op"]))
+            rep.add("C06.DELIM", key, ok, b.where(a["bb"], a["idx"]), "Tera::default uses Delimiters::default() (2-byte literals)" + ("" if ok else " — VIOLATED"))
+        elif root == "tera::Tera::set_delimiters":
+            ef = EdgeFacts(b, crate)
+            # dominated by the Ok (Continue) edge of validate()?
+            vcalls = [bb for bb, t in find_calls(b, ["delimiters::Delimiters::validate"])]
+            ok = bool(vcalls) and all(b.dominates(v, a["bb"]) for v in vcalls) and a["bb"] not in b.reach_from([x for x in error_exit_blocks(b)])
+            # the error exit of validate()? must not reach the assignment
+            rep.add("C06.DELIM", key, ok, b.where(a["bb"], a["idx"]), "set_delimiters assigns the field only after `delimiters.validate()?` succeeded" + ("" if ok else " — VIOLATED"))
+        else:
+            rep.bad("C06.DELIM", key, b.where(a["bb"], a["idx"]), "Tera.delimiters is written only by Default and set_delimiters — VIOLATED: %s (unvalidated delimiters reach the "
+                    "lexer: windows(0) panics, 2-byte arithmetic breaks)" % root)
+    rep.floor("C06.DELIM", "writers of Tera.delimiters [%s]" % cfg, n, 2)
+    # Template::new call sites pass a clone of self.delimiters
+    k = 0
+    for b in crate.bodies.values():
+        if b.kind == "const":
+            continue
+        tr = Tracer(b)
+        for bb, t in find_calls(b, ["template::Template::new"]):
+            leaves = tr.operand(t["args"][3])
+            leaves = resolve_up(crate, b, leaves)
+            ok = bool(leaves) and all(".delimiters" in l.projs and l.kind == "param" for l in leaves)
+            rep.add("C06.DELIM", "C06.DELIM:Template::new#%d:%s" % (k, crate.root_of(b).path), ok, b.where(bb), "Template::new receives a clone of self.delimiters"
+                    + ("" if ok else " — VIOLATED: origin %s" % sorted(leaf_str(l) for l in leaves)[:2]))
+            k += 1
+    rep.floor("C06.DELIM", "Template::new call sites [%s]" % cfg, k, 3)
+    # validate(): six length tests against 2
+    v = crate.one("delimiters::Delimiters::validate")
+    tr = Tracer(v)
+    fields = set()
+    for bb, idx, s in v.stmts():
+        if idx != "t" and s["k"] == "assign" and s["rv"]["k"] == "bin" and s["rv"]["op"] in ("Ne", "Eq") and s["rv"]["r"]["k"] == "const" and s["rv"]["r"].get("v") == "2":
+            for l in tr.operand(s["rv"]["l"]):
+                if l.kind == "call" and l.detail[1].endswith("::len"):
+                    recv = tr.operand(v.term(l.detail[2])["args"][0])
+                    for r in recv:
+                        for p in r.projs:
+                            if p.startswith(".") and ("start" in p or "end" in p):
+                                fields.add(p)
+    ok = len(fields) == 6
+    rep.add("C06.DELIM", "C06.DELIM:validate:six-length-tests", ok, v.where(0), "Delimiters::validate compares the byte length of all six delimiters with 2 (%s)" % sorted(fields)
+            + ("" if ok else " — VIOLATED"))
+
+
+def resolve_up(crate, body, leaves):
+    from props.c07 import resolve_upvars
+    return resolve_upvars(crate, body, leaves, None)
+
+
+def derived_locals(body, start_local):
+    """locals that hold (a cast/copy of) the value first stored in start_local"""
+    out = {start_local}
+    changed = True
+    while changed:
+        changed = False
+        for bb, idx, s in body.stmts():
+            if idx != "t" and s["k"] == "assign" and not s["pl"]["p"] and s["pl"]["l"] not in out:
+                rv = s["rv"]
+                if rv["k"] in ("use", "cast") and rv["op"]["k"] in ("copy", "move") and rv["op"]["pl"]["l"] in out:
+                    out.add(s["pl"]["l"])
+                    changed = True
+                elif rv["k"] == "agg" and any(op["k"] in ("copy", "move") and op["pl"]["l"] in out for op in rv["ops"]):
+                    out.add(s["pl"]["l"])
+                    changed = True
+    return out
+
+
+def check_patch_jt(crate, rep, cfg):
+    comp = [b for b in crate.in_files("parsing/compiler.rs") if b.kind != "const"]
+    counts = {}
+    for b in comp:
+        tr = Tracer(b)
+        root = crate.root_of(b).path
+        for bb, idx, s in find_aggs(b, "parsing::instructions::Instruction"):
+            v = s["rv"]["variant"]
+            if v not in JUMPS:
+                continue
+            payload = s["rv"]["ops"][0]
+            placeholder = payload["k"] == "const" and payload.get("v") == "0"
+            agg_local = s["pl"]["l"]
+            # the Chunk::add call that takes this aggregate
+            add = None
+            for b2, t2 in find_calls(b, ["parsing::instructions::Chunk::add"]):
+                if any(l.kind == "agg" and l.detail[3] == bb and l.detail[4] == idx for l in tr.operand(t2["args"][1])):
+                    add = (b2, t2)
+            n = counts.get(v, 0)
+            counts[v] = n + 1
+            if not placeholder:
+                # JT: non-placeholder payload provenance
+                leaves = tr.operand(payload)
+                ok = bool(leaves) and all(jt_leaf_ok(l) for l in leaves)
+                key = "C06.JT:%s:%s#%d:emit" % (root, v, n)
+                (rep.ok if ok else rep.bad)("C06.JT", key, b.where(bb, idx), "jump payload emitted for %s comes from Chunk::add / Chunk::len / a recorded loop start" % v
+                                            + ("" if ok else " — VIOLATED: origin %s (target may lie outside the chunk)" % sorted(leaf_str(l) for l in leaves)[:2]))
+                continue
+            key = "C06.PATCH:%s:%s#%d" % (root, v, n)
+            what = "the index of the placeholder %s(0) is recorded for patching (ProcessingBody / ShortCircuit list / get_mut)" % v
+            if add is None:
+                rep.bad("C06.PATCH", key, b.where(bb, idx), what + " — anchor-missing: Chunk::add call for this aggregate")
+                continue
+            idx_locals = derived_locals(b, add[1]["dest"]["l"])
+            recorded = False
+            for b3, i3, s3 in b.stmts():
+                if i3 == "t":
+                    if s3["k"] == "call":
+                        cd = callee_def(s3)
+                        if cd.endswith("Chunk::get_mut") or cd.endswith("::push"):
+                            for a in s3["args"][1:]:
+                                if a["k"] in ("copy", "move") and a["pl"]["l"] in idx_locals:
+                                    recorded = True
+                elif s3["k"] == "assign" and s3["rv"]["k"] == "agg" and (s3["rv"].get("adt") or "").endswith("ProcessingBody"):
+                    for op in s3["rv"]["ops"]:
+                        if op["k"] in ("copy", "move") and op["pl"]["l"] in idx_locals:
+                            recorded = True
+            (rep.ok if recorded else rep.bad)("C06.PATCH", key, b.where(bb, idx), what if recorded else what + " — VIOLATED: the jump keeps target 0: an endless loop "
+                                              "or a jump to the chunk start at render time")
+        # JT: patch assignments `*target = X`
+        k = 0
+        for bb, idx, s in b.stmts():
+            if idx == "t" or s["k"] != "assign" or pl_projs(s["pl"]) != ["deref"]:
+                continue
+            is_patch = False
+            for (b2, i2, dp, rv) in b.defs.get(s["pl"]["l"], []):
+                if rv["k"] == "ref" and any(p[3:] in JUMPS for p in pl_projs(rv["pl"]) if p.startswith("as:")):
+                    is_patch = True
+            if not is_patch:
+                continue
+            leaves = tr._rv(s["rv"], (), set(), 0, bb, idx)
+            ok = bool(leaves) and all(jt_leaf_ok(l) for l in leaves)
+            key = "C06.JT:%s:patch#%d" % (root, k)
+            k += 1
+            counts["patch"] = counts.get("patch", 0) + 1
+            (rep.ok if ok else rep.bad)("C06.JT", key, b.where(bb, idx), "a patched jump target comes from Chunk::len() / a recorded index (<= chunk length, so index_map[target] and the VM's "
+                                        "ip stay in range)" + ("" if ok else " — VIOLATED: origin %s" % sorted(leaf_str(l) for l in leaves)[:2]))
+    for v, fl in (("PopJumpIfFalse", 4), ("Jump", 3), ("Iterate", 2), ("JumpIfFalseOrPop", 1), ("JumpIfTrueOrPop", 1), ("patch", 5)):
+        rep.floor("C06.PATCH", "compiler sites: %s [%s]" % (v, cfg), counts.get(v, 0), fl)
+    # R-PAIR on processing_bodies: pushes == pops per function, and every pop site assigns payloads
+    for b in comp:
+        pushes = [bb for bb, t in find_calls(b, ["std::vec::Vec::<T, A>::push"]) if "ProcessingBody" in t["atys"][0]]
+        pops = [bb for bb, t in find_calls(b, ["std::vec::Vec::<T, A>::pop"]) if "ProcessingBody" in t["atys"][0]]
+        ends = [bb for bb, t in find_calls(b, ["parsing::compiler::Compiler::end_branch"])]
+        if not pushes and not pops:
+            continue
+        root = crate.root_of(b).path
+        key = "C06.PATCH:%s:push-pop-balance" % root
+        if root.endswith("end_branch"):
+            continue
+        ok = len(pushes) == len(pops) + len(ends)
+        (rep.ok if ok else rep.bad)("C06.PATCH", key, b.where(0), "processing_bodies: %d pushes == %d pops + %d end_branch calls in %s" % (len(pushes), len(pops), len(ends), root.rsplit("::", 1)[-1])
+                                    + ("" if ok else " — VIOLATED: an unpaired placeholder record"))
+
+
+def jt_leaf_ok(l):
+    if l.kind == "const":
+        return True
+    if any(p in ("as:Loop", "as:Branch", "as:ShortCircuit") for p in l.projs):
+        return True       # an index recorded in a ProcessingBody entry (itself a Chunk::add result, checked at the push site)
+    if l.kind == "call":
+        return l.detail[1].endswith("Chunk::len") or l.detail[1].endswith("Chunk::add") or l.detail[0].endswith("Chunk::len") or l.detail[0].endswith("Chunk::add")
+    if l.kind == "param":
+        return True       # end_branch(idx): callers pass self.chunk.len() (checked at their sites by the same rule)
+    if l.kind in ("agg",):
+        return False
+    if l.kind == "cycle":
+        return True
+    # payload of a ProcessingBody::Loop / ShortCircuit entry popped from processing_bodies
+    return any(p in ("as:Loop", "as:Branch", "as:ShortCircuit") for p in l.projs)
